@@ -94,7 +94,10 @@ func genCmdWord(r *rand.Rand) string {
 	case 4:
 		w += "\\~"
 	case 5:
-		w = "'" + pick(r, []string{"a|b", "(?:x)", "[a-z]+", "foo@", "ls", "git@", "home~", "ls\\s", "v\\d", "a\\@", "x\\~", "@", "~"})
+		w = "'" + pick(r, []string{"a|b", "(?:x)", "[a-z]+", "foo@", "ls", "git@", "home~", "ls\\s", "v\\d", "a\\@", "x\\~", "@", "~", "sudo ", "su\t"})
+	}
+	if chance(r, 0.04) && !strings.Contains(w, "\\") && !strings.HasPrefix(w, "'") {
+		w += pick(r, []string{" ", "\t"}) // a trailing blank is part of the word (one or more white-space characters must follow)
 	}
 	return w
 }
@@ -337,7 +340,7 @@ func (g *progGen) items(depth int, inCmd bool) []string {
 				}
 			}
 		case 7:
-			lines = append(lines, pick(g.r, []string{"", "   ", "##! a comment", ind + "##! another ##!> include x"}))
+			lines = append(lines, pick(g.r, []string{"", "   ", "##! a comment", ind + "##! another ##!> include x", "\f##! a comment behind a form feed", " \r##! a comment behind a carriage return", "\t##!   comment"}))
 			g.count("comment-or-blank")
 		case 8:
 			if g.o.defs {
